@@ -1,20 +1,20 @@
 import Pylx
 open Pylx
 
+/-- every model file contributes one handler; the first that recognises the operation answers -/
+def handlers : List (List String → Option String) := [
+  handleLine
+]
+
 def handle (fields : List String) : String :=
-  match fields with
-  | ["LINE", lo, fo, co, s, p] =>
-    match lo.toInt?, fo.toInt?, co.toInt?, decodeStr s, p.toNat? with
-    | some lo, some fo, some co, some s, some p =>
-      let r := posToLineCol { lineOffset := lo, firstLineColOffset := fo, colOffset := co } s p
-      s!"{r.1} {r.2}"
-    | _, _, _, _, _ => "bad-op"
-  | _ => "bad-op"
+  match handlers.findSome? (fun h => h fields) with
+  | some r => r
+  | none => "bad-op"
 
 partial def loop (h : IO.FS.Stream) (out : IO.FS.Stream) : IO Unit := do
   let line ← h.getLine
   if line.isEmpty then return ()
-  let l := if line.back == '\n' then line.dropRight 1 else line
+  let l := if line.back == '\n' then (line.dropEnd 1).toString else line
   out.putStrLn (handle (l.splitOn "\t"))
   loop h out
 
